@@ -1,6 +1,7 @@
 package bondgo
 
 import (
+	"sort"
 	"strconv"
 )
 
@@ -149,17 +150,35 @@ func (reqmnt *BondgoRequirements) Init_Requirements(cfg *BondgoConfig) {
 func (reqmnt *BondgoRequirements) Dump_Requirements() string {
 	result := ""
 	result += "--- Processors ---\n"
-	for proc_id, procreq := range reqmnt.Procr {
+	procIds := make([]int, 0, len(reqmnt.Procr))
+	for proc_id := range reqmnt.Procr {
+		procIds = append(procIds, proc_id)
+	}
+	sort.Ints(procIds)
+	for _, proc_id := range procIds {
+		procreq := reqmnt.Procr[proc_id]
 		result += "p" + strconv.Itoa(proc_id) + "\n"
 		result += procreq.Dump_Requirements()
 	}
 	result += "--- IO ---\n"
-	for proc_id, ioreq := range reqmnt.IOr {
+	ioIds := make([]int, 0, len(reqmnt.IOr))
+	for proc_id := range reqmnt.IOr {
+		ioIds = append(ioIds, proc_id)
+	}
+	sort.Ints(ioIds)
+	for _, proc_id := range ioIds {
+		ioreq := reqmnt.IOr[proc_id]
 		result += "proc " + strconv.Itoa(proc_id) + "\n"
 		result += ioreq.Dump_Requirements()
 	}
 	result += "--- Channels ---\n"
-	for chan_id, chanreq := range reqmnt.Chanr {
+	chanIds := make([]int, 0, len(reqmnt.Chanr))
+	for chan_id := range reqmnt.Chanr {
+		chanIds = append(chanIds, chan_id)
+	}
+	sort.Ints(chanIds)
+	for _, chan_id := range chanIds {
+		chanreq := reqmnt.Chanr[chan_id]
 		result += "ch" + strconv.Itoa(chan_id) + "\n"
 		result += chanreq.Dump_Requirements()
 	}
